@@ -248,7 +248,9 @@ def check_precision_deps(P, R):
             if not c_.args:
                 continue
             n_prec += 1
-            cn_ = _cone7(du_, c_.args[0], du_.stmt_of(c_), interproc=True)
+            from ..dataflow import values_only as _vo7
+            with _vo7():
+                cn_ = _cone7(du_, c_.args[0], du_.stmt_of(c_), interproc=True)
             has_sub = any(a.split(".")[-1] in need_ for a in cn_.attrs)
             has_var = any(a.split(".")[-1] in ("variance_supervector", "variances", "_variances") for a in cn_.attrs)
             R.check(has_sub and has_var, "DEP.precision", f_.key, f"{helper_}({src(c_.args[0])[:30]}, ...)", "D' Sigma^-1 D from the current D and the UBM covariances", f"the posterior precision of z is computed from `{src(c_.args[0])[:30]}`, which does not derive from {'the current D' if not has_sub else 'the UBM covariances'}: the E-step of z no longer matches the model once D has moved away from its initial value", c_.lineno)
